@@ -74,8 +74,12 @@ package tokenizers
 //
 // atheader(0, cur(..)) is the cursor at which the state that produced the returned token was entered
 //@ func (c *AbstractTokenizer) ReadNextToken
-//@   requires tokInv(c)
+//@   requires tokInv(c) && absOf(c) == c
 //@   ensures[C03] c.Scanner == nil ==> result == nil
+//@   ensures[C03] tokInv(c) && c.Scanner == old(c.Scanner) && (c.Scanner != nil ==> sc(c.Scanner).content == old(sc(c.Scanner).content) && old(cur(c.Scanner)) <= cur(c.Scanner))
+//@   ensures[C03] result != nil ==> allocated(result)
+//@   ensures[C03] result != nil && result.typ != Eof ==> cur(c.Scanner) > old(cur(c.Scanner))
+//@   ensures[C03] result != nil && result.typ == Eof ==> old(c.LastTokenType) != Eof
 //@   ensures[C15] c.Scanner != nil ==> c.LastTokenType == (result == nil ? Eof : result.typ)
 //@   ensures[C12] result != nil && result.typ != Eof ==>
 //@       result.line == L(seq(sc(c.Scanner).content), atheader(0, cur(c.Scanner))) && result.column == C(seq(sc(c.Scanner).content), atheader(0, cur(c.Scanner)))
@@ -117,12 +121,66 @@ package tokenizers
 //@   requires self != nil
 //@   assigns any(AbstractTokenizer).decodeStrings
 //@   nopanic
-// A12 (trusted, not verified): tokenizing a whole buffer terminates, returns a list of tokens none of which is nil,
-// and writes only the tokenizer's own reading state (the loop over ReadNextToken is covered by the bounded tokenizer
-// checks of C04/C12/C15, not by a contract)
+// tokenizing a whole buffer terminates, returns a list of tokens none of which is nil, and writes only the tokenizer's
+// own reading state (verified for AbstractTokenizer.TokenizeBuffer, which every built-in tokenizer promotes)
 //@ interface ITokenizer.TokenizeBuffer(self, buffer)
 //@   requires self != nil
 //@   ensures[C03] fresh(result) && (forall i int :: 0 <= i && i < len(result) ==> result[i] != nil && allocated(result[i]))
-//@   assigns any(AbstractTokenizer).Scanner, any(AbstractTokenizer).NextTokenValue, any(AbstractTokenizer).LastTokenType
+//@   assigns any(AbstractTokenizer).Scanner, any(AbstractTokenizer).NextTokenValue, any(AbstractTokenizer).LastTokenType, any(tokenizers.MustacheTokenizer).special
 //@   nopanic
-//@   trusted
+
+// ---- the tokenizer loop (C03: tokenizing terminates and returns normally) ------------------------------------------
+// A16 (ghost, assumed): absOf(o) is the AbstractTokenizer that the overriding tokenizer o embeds; a tokenizer's Overrides
+// field points back to the object that embeds it (set once, by InheritAbstractTokenizer)
+//@ ufun absOf(o ITokenizerOverrides) *AbstractTokenizer
+//@ pred ovOK(c *AbstractTokenizer) = c != nil && c.Overrides != nil && absOf(c.Overrides) == c
+//
+// What one read step promises to the loop: it keeps the tokenizer's invariant and the input, never moves backwards,
+// consumes at least one character with every token other than the end-of-input token, and emits that token once
+//@ interface ITokenizerOverrides.ReadNextToken(self)
+//@   requires self != nil && tokInv(absOf(self))
+//@   ensures[C03] tokInv(absOf(self)) && absOf(self).Scanner == old(absOf(self).Scanner)
+//@   ensures[C03] absOf(self).Scanner != nil ==> sc(absOf(self).Scanner).content == old(sc(absOf(self).Scanner).content) &&
+//@       old(cur(absOf(self).Scanner)) <= cur(absOf(self).Scanner)
+//@   ensures[C03] result != nil ==> absOf(self).Scanner != nil && allocated(result)
+//@   ensures[C03] result != nil && result.typ != Eof ==> cur(absOf(self).Scanner) > old(cur(absOf(self).Scanner))
+//@   ensures[C03] result != nil && result.typ == Eof ==> old(absOf(self).LastTokenType) != Eof && absOf(self).LastTokenType == Eof
+//@   ensures[C03] result == nil && absOf(self).Scanner != nil ==> absOf(self).LastTokenType == Eof
+//@   assigns absOf(self).LastTokenType, sc(absOf(self).Scanner).position, sc(absOf(self).Scanner).line, sc(absOf(self).Scanner).column,
+//@       any(tokenizers.MustacheTokenizer).special
+//@   nopanic
+//
+//@ func (c *AbstractTokenizer) NextToken
+//@   requires ovOK(c) && tokInv(c) && (c.NextTokenValue != nil ==> allocated(c.NextTokenValue))
+//@   ensures[C03] tokInv(c) && ovOK(c) && c.NextTokenValue == nil && c.Scanner == old(c.Scanner)
+//@   ensures[C03] c.Scanner != nil ==> sc(c.Scanner).content == old(sc(c.Scanner).content) && old(cur(c.Scanner)) <= cur(c.Scanner)
+//@   ensures[C03] result != nil ==> allocated(result)
+//@   ensures[C03] old(c.NextTokenValue) == nil && result != nil && result.typ != Eof ==> cur(c.Scanner) > old(cur(c.Scanner))
+//@   ensures[C03] old(c.NextTokenValue) == nil && result != nil && result.typ == Eof ==> old(c.LastTokenType) != Eof && c.LastTokenType == Eof
+//@   ensures[C03] old(c.NextTokenValue) != nil ==> result == old(c.NextTokenValue) && c.LastTokenType == old(c.LastTokenType)
+//@   ensures[C03] old(c.NextTokenValue) == nil && result == nil && c.Scanner != nil ==> c.LastTokenType == Eof
+//@   assigns c.NextTokenValue, c.LastTokenType, sc(c.Scanner).position, sc(c.Scanner).line, sc(c.Scanner).column, any(tokenizers.MustacheTokenizer).special
+//@   nopanic
+//
+// "tokenizing with any built-in tokenizer terminate[s] and return[s] normally": measure = characters left, then whether
+// the end-of-input token is still to come
+//@ func (c *AbstractTokenizer) TokenizeStream
+//@   tags C03
+//@   requires ovOK(c) && c.mp != nil && mapInv(c.mp) && (c.decodeStrings ==> c.quoteState != nil) && isScanner(scanner) &&
+//@       (forall i int :: 0 <= i && i < len(sc(scanner).content) ==> scalar(sc(scanner).content[i]))
+//@   ensures[C03] forall i int :: 0 <= i && i < len(result) ==> result[i] != nil && allocated(result[i])
+//@   ensures[C03] fresh(result)
+//@   assigns c.Scanner, c.NextTokenValue, c.LastTokenType, sc(scanner).position, sc(scanner).line, sc(scanner).column, any(tokenizers.MustacheTokenizer).special
+//@   nopanic
+//@   loop 0
+//@     invariant ovOK(c) && tokInv(c) && c.Scanner == scanner && c.NextTokenValue == nil && sc(scanner).content == old(sc(scanner).content)
+//@     invariant fresh(tokenList) && (forall i int :: 0 <= i && i < len(tokenList) ==> tokenList[i] != nil && allocated(tokenList[i]))
+//@     invariant token != nil ==> allocated(token)
+//@     invariant token != nil && token.typ == Eof ==> c.LastTokenType == Eof
+//@     decreases len(sc(scanner).content) - cur(scanner), (c.LastTokenType == Eof ? 0 : 1), (token != nil ? 1 : 0)
+//@ func (c *AbstractTokenizer) TokenizeBuffer
+//@   tags C03
+//@   requires ovOK(c) && c.mp != nil && mapInv(c.mp) && (c.decodeStrings ==> c.quoteState != nil)
+//@   ensures[C03] forall i int :: 0 <= i && i < len(result) ==> result[i] != nil && allocated(result[i])
+//@   ensures[C03] fresh(result)
+//@   nopanic
